@@ -521,6 +521,57 @@ for tag, d in hdr_inputs:
                         'argv': ['lbzip2', '-cdf'], 'input_hex': d.hex(),
                         'input_tag': tag})
 
+# ---- several operands in one invocation: a non-bzip2 operand is passed
+# through unchanged wherever it stands (state left by an earlier operand --
+# a decompressed one in particular -- must not leak into the copy)
+valid_ops = [(t, d) for t, d in hdr_inputs
+             if t.startswith('valid') and '+trail' not in t] + \
+            [(t, d) for t, d in hdr_inputs if t == 'empty-stream']
+copy_ops = [(t, d) for t, d in inputs if len(d) <= 3 * GRANUL]
+n_multi = 40 if ck.quick else 400
+for k in range(n_multi):
+    ops = []
+    for _ in range(rng.randrange(2, 5)):
+        ops.append(rng.choice(valid_ops) if rng.random() < 0.45
+                   else rng.choice(copy_ops))
+    if k < 6:        # the shortest shapes first
+        ops = [[valid_ops[0], copy_ops[k]], [copy_ops[k], valid_ops[0], copy_ops[-1 - k]],
+               [valid_ops[-1], copy_ops[k]]][k % 3]
+    want = b''
+    for t, d in ops:
+        want += bz2.decompress(d) if (t, d) in valid_ops else d
+    nw = rng.choice([1, 2, 3, 4])
+    ps = rng.choice([None] + pseeds)
+    env = dict(os.environ)
+    for kk in list(env):
+        if kk.startswith('LBZIP2') or kk in ('BZIP2', 'BZIP'):
+            del env[kk]
+    if ps is not None:
+        env['LBZIP2_VERIF_PERTURB'] = str(ps)
+    argv = [exe, '-cdf', '-n%d' % nw] + [paths[t] for t, _ in ops]
+    try:
+        r = subprocess.run(argv, stdin=subprocess.DEVNULL, capture_output=True,
+                           env=env, timeout=TIMEOUT)
+        st, out, err_ = r.returncode, r.stdout, r.stderr
+    except subprocess.TimeoutExpired:
+        st, out, err_ = 'timeout', b'', b''
+    evaluations += 1
+    distinct.add('multi' + ','.join(t for t, _ in ops) + str(nw) + str(ps))
+    dist['mode']['multi-operand'] = dist['mode'].get('multi-operand', 0) + 1
+    if st != 0 or out != want or err_ != b'':
+        kb = next((i for i in range(min(len(out), len(want))) if out[i] != want[i]),
+                  min(len(out), len(want)))
+        ck.violation(
+            '-cdf with several operands %s: status %r, output %d bytes (expected '
+            '%d), first difference at byte %d, stderr %r' % (
+                [t for t, _ in ops], st, len(out), len(want), kb, err_[:160]),
+            {'argv': ['lbzip2', '-cdf', '-n%d' % nw] + ['<%s>' % t for t, _ in ops],
+             'operands': [{'tag': t, 'len': len(d), 'hex': d.hex()[:2000],
+                           'sha1': hashlib.sha1(d).hexdigest()} for t, d in ops],
+             'perturb_seed': ps,
+             'how': 'VERIF_SEED=%d ./check C19 regenerates the operands from '
+                    'the tags' % ck.seed})
+
 # ---- decision grid against Model.Copy.sniff
 grid_inputs = [d for _, d in inputs if len(d) <= 12][:60] + \
               [d for _, d in hdr_inputs if len(d) <= 400][:12]
